@@ -6,7 +6,7 @@ out=${1:-/var/tmp/matrix.txt}
 : > $out
 for d in seeded/*/; do
   id=$(basename $d)
-  git -C /repo apply $d/patch.diff || { echo "$id PATCH-DOES-NOT-APPLY" >> $out; continue; }
+  git -C /repo apply /verif/$d/patch.diff || { echo "$id PATCH-DOES-NOT-APPLY" >> $out; continue; }
   for i in 01 02 03 04 05 06 07 08 09 10 11 12 13 14 15 16 17 18 19 20; do
     ( r=$(./check C$i --tier quick 2>&1 | grep -E "^VIOLATION" | head -1); 
       if [ -n "$r" ]; then if echo "$r" | grep -q no-failing-input-found; then echo "C$i:diff"; else echo "C$i:oracle"; fi; fi ) > /var/tmp/matrix.$i.tmp &
